@@ -109,6 +109,10 @@ class C06Bounded(Bounded):
                 {"title": "C6", "correlation": {"type": "value_percentile", "rules": ["n"], "timespan": "1d", "group-by": ["User"], "condition": {"gt": 5, "field": "x", "percentile": 0}}},
                 {"title": "C7", "correlation": {"type": "value_sum", "rules": ["n", "m"], "timespan": "1d", "group-by": ["User"], "condition": {"eq": 0, "field": "x"}}},
                 {"title": "C8", "correlation": {"type": "temporal", "rules": ["m", "n"], "timespan": "1d", "group-by": ["User"]}},
+                {"title": "C10", "correlation": {"type": "temporal", "rules": ["n", "m", "p"], "timespan": "1d", "group-by": ["User"], "condition": "n and not (m and p)"}},
+                {"title": "C11", "correlation": {"type": "temporal", "rules": ["n", "m", "p"], "timespan": "1d", "group-by": ["User"], "condition": "not (n or m) and p"}},
+                {"title": "C12", "correlation": {"type": "temporal_ordered", "rules": ["n", "m", "p"], "timespan": "1d", "group-by": ["User"], "condition": "(n or  (m and not p))   and not (not n and m)"}},
+                {"title": "C13", "correlation": {"type": "temporal", "rules": ["n", "m", "p"], "timespan": "1d", "group-by": ["User"], "condition": "n or m and p"}},
                 {"title": "C9", "correlation": {"type": "value_count", "rules": ["p", "n"], "timespan": "30s", "group-by": ["User", "Host"], "condition": {"neq": 1, "field": ["x", "y"]}, "aliases": {"Host": {"p": "h1", "n": "h2"}}, "generate": True}}]
         for kind, cls, doc in (("rule", SigmaRule, RULE_OK), ("correlation", SigmaCorrelationRule, CORR), ("correlation", SigmaCorrelationRule, CORR2), ("correlation", SigmaCorrelationRule, CORR3), ("filter", SigmaFilter, FILT),
                                *[("correlation", SigmaCorrelationRule, m) for m in more],
